@@ -96,7 +96,7 @@ def _prov(tags: frozenset[str]) -> set[str]:
 
 
 # =================================================================================================
-def _reader(ctx: Ctx, model: ExcModel, fields: dict[str, list[str]], origin: str) -> None:
+def _reader(ctx: Ctx, model: ExcModel, fields: dict[str, list[str]], origin: str) -> dict[str, set[str]]:
     fi = ctx.fn(DECODER)
     ai = DecoderAI(ctx, fi, model)
     ai.run()
@@ -140,19 +140,23 @@ def _reader(ctx: Ctx, model: ExcModel, fields: dict[str, list[str]], origin: str
                 bound["attr:" + k] = v
             raised.append((call, bound))
     some(raised, "RpcError raised by the decoder from an EXCEPTION batch", fi)
-    # the EXCEPTION branch: reached exactly under level == Level.EXCEPTION.value
+    # the EXCEPTION branch: reached exactly under level == EXCEPTION, for every member of the Level enum
+    lvl_cls = ctx.repo.cls(f"{LOGM}:Level")
+    members = [v.value for st0 in lvl_cls.node.body for v in [assign_parts(st0)[1]] if isinstance(st0, ast.Assign) and isinstance(v, ast.Constant) and isinstance(v.value, str)]
+    if "EXCEPTION" not in members or len(members) < 3:
+        raise AnalysisError(f"anchor=Level enum members not recognised ({members})")
     for call, _b in raised:
         ifs = [a for a in ancestors(ai.cfg, call) if isinstance(a, ast.If)]
         ok = False
         for g in ifs:
             try:
-                t = mini_eval(g.test, _level_env(ai, g.test, "EXCEPTION"))
-                f = mini_eval(g.test, _level_env(ai, g.test, "INFO"))
-                ok = ok or (bool(t) and not bool(f))
+                table = {m: bool(mini_eval(g.test, _level_env(ai, g.test, m))) for m in members}
             except AnalysisError:
                 continue
-        ctx.check(ok, "RF-TABLE", "exception-level-raises", fi, call, ok="the RpcError is raised exactly for log_level == EXCEPTION",
-                  bad="the RpcError is not guarded by a test that holds for level EXCEPTION and fails for other levels")
+            ok = ok or all(table[m] == (m == "EXCEPTION") for m in members)
+        ctx.check(ok, "RF-TABLE", "exception-level-raises", fi, call, ok=f"the RpcError is raised exactly for log_level == EXCEPTION (test evaluated for all {len(members)} levels)",
+                  bad="the RpcError is not guarded by a test that holds for level EXCEPTION and fails for every other level: a plain log message fails the call, or an error is delivered as a log")
+    reader_sources: dict[str, set[str]] = {}
     for field, srcs in sorted(fields.items()):
         want = {_norm_src(s) for s in srcs}
         verdicts = []
@@ -163,6 +167,7 @@ def _reader(ctx: Ctx, model: ExcModel, fields: dict[str, list[str]], origin: str
                 fed |= _prov(bound.get(p, frozenset()))
             fed |= _prov(bound.get("attr:" + field, frozenset()))
             verdicts.append((has_attr, bool(fed & want), fed, call))
+            reader_sources.setdefault(field, set()).update(fed & want)
         has_attr = all(v[0] for v in verdicts)
         fed_ok = all(v[1] for v in verdicts)
         if not has_attr:
@@ -173,7 +178,8 @@ def _reader(ctx: Ctx, model: ExcModel, fields: dict[str, list[str]], origin: str
             bad = next(v for v in verdicts if not v[1])
             ctx.fail("RF-TABLE", f"reader-exposes:{field}", fi, bad[3], f"RpcError.{field} is not fed from {' or '.join(srcs)} (it derives from {sorted(bad[2]) or 'no wire value'})")
         else:
-            ctx.hold("RF-TABLE", f"reader-exposes:{field}", fi, verdicts[0][3], f"RpcError.{field} <- {' / '.join(srcs)} ({origin})")
+            ctx.hold("RF-TABLE", f"reader-exposes:{field}", fi, verdicts[0][3], f"RpcError.{field} <- {' / '.join(sorted(reader_sources.get(field, set())))} ({origin})")
+    return reader_sources
 
 
 def _level_env(ai: DecoderAI, test: ast.expr, level: str) -> dict[str, object]:
@@ -193,7 +199,7 @@ def _level_env(ai: DecoderAI, test: ast.expr, level: str) -> dict[str, object]:
 
 
 # =================================================================================================
-def _writer(ctx: Ctx, fields: dict[str, list[str]]) -> None:
+def _writer(ctx: Ctx, fields: dict[str, list[str]], reader_sources: dict[str, set[str]]) -> None:
     fe = ctx.fn(f"{LOGM}:Message.from_exception")
     excp = [p.arg for p in params_of(fe) if p.arg not in ("cls", "self")]
     if not excp:
@@ -291,7 +297,10 @@ def _writer(ctx: Ctx, fields: dict[str, list[str]]) -> None:
                         return True
         return False
 
-    ek = [s for s in fields.get("error_kind", []) if s.startswith("vgi_rpc.")]
+    # the top-level key must be written when the reader takes the kind from it (or, today, from nowhere); a reader that
+    # takes the log_extra mirror is served by from_exception alone ("a reader may take either")
+    used = reader_sources.get("error_kind", set())
+    ek = [s for s in fields.get("error_kind", []) if s.startswith("vgi_rpc.") and (not used or s in used)]
     for key in ek:
         ctx.check(any(from_extra_field(v, "error_kind") for v in stores.get(key, [])), "RF-TABLE", f"writer-hoists:{key}", atm, (stores.get(key) or [None])[0],
                   ok=f"{key} is written from the message's error_kind extra", bad=f"add_to_metadata no longer writes {key} from extra['error_kind']: the stable error category is not on the wire")
@@ -472,11 +481,14 @@ def _marker_iff_error(ctx: Ctx) -> None:
     lit_rets = [r for r in rets if r not in var_rets]
     d500 = set().union(*[cfg.done(n) for n in a500]) if a500 else set()
     ret_att = set().union(*[cfg.attempt(r) for r in var_rets])
-    for i, w in enumerate(W):
-        r = cfg.reach(cfg.done(w), d500, include_start=False)
-        leak = bool(r & ret_att)
+    dother = set().union(*[cfg.done(n) for n in aother]) if aother else set()
+    not500_at = cfg.reach({cfg.entry} | dother, d500)  # program points where the status may still be something other than 500
+    for w in W:
+        post_unset = bool(cfg.reach(cfg.done(w), d500, include_start=False) & ret_att)
+        leak = bool(cfg.attempt(w) & not500_at) and post_unset
         # ... and once set, not overwritten by another value before the return
-        over = any(cfg.reach(d500 & cfg.reach(cfg.done(w), include_start=False), include_start=False) & cfg.attempt(o) and cfg.reach(cfg.done(o), d500, include_start=False) & ret_att for o in aother)
+        after_w = cfg.reach(cfg.done(w), include_start=False)
+        over = any((cfg.attempt(o) & after_w) and (cfg.reach(cfg.done(o), d500, include_start=False) & ret_att) for o in aother)
         ctx.check(not leak and not over, "RF-DOM", f"error-batch-implies-500:unary:{_err_arg(w)}", fu, w, ok="after this error batch is written every path to the return sets the status to INTERNAL_SERVER_ERROR",
                   bad="an error batch is written but a path returns with the status still OK: HTTP 200 without X-VGI-RPC-Error although the body carries an error")
     watt = set().union(*[cfg.attempt(w) for w in W])
@@ -636,8 +648,8 @@ def run(ctx: Ctx) -> None:
     model = ExcModel(ctx.repo, ctx.res)
     fields, origin = doc_fields(ctx)
     ctx.note(f"C07 error-field oracle: {origin}: {fields}")
-    _reader(ctx, model, fields, origin)
-    _writer(ctx, fields)
+    used = _reader(ctx, model, fields, origin)
+    _writer(ctx, fields, used)
     _dispatch_sites(ctx, model)
     _marker_iff_error(ctx)
     _status_table(ctx)
